@@ -198,6 +198,35 @@ def doc_oracles(res, r, tier):
     out = render_simple('<dtml-var nosuch upper>')
     if out != ('err', 'KeyError'):
         fail({'src': 'missing'}, 'undefined without missing: %r' % (out,))
+    # missing= replaces an UNDEFINED name only: a defined name whose evaluation raises KeyError is an error, not "missing"
+    from DocumentTemplate import HTML
+
+    def failing():
+        return {}['inner-key']
+
+    class Obj:
+        def absolute_url(self):
+            raise KeyError('no url')
+    inner = HTML('<dtml-var undefined_inside>')
+    for src, kw in (('<dtml-var f missing="N/A">', {'f': failing}), ('<dtml-var f missing="N/A" upper>', {'f': failing}),
+                    ('<dtml-var t missing="N/A">', {'t': inner}), ('<dtml-var t missing="N/A" size=3>', {'t': inner}),
+                    ('<dtml-var o url missing="N/A">', {'o': Obj()}), ('<dtml-var f missing="">', {'f': failing})):
+        out = render_simple(src, **kw)
+        res.evaluations += 1
+        res.nt(('missing-defined', src))
+        if out != ('err', 'KeyError'):
+            fail({'src': src}, 'missing= replaced a DEFINED name whose evaluation raised KeyError: %r' % (out,))
+    # url_unquote(_plus) as a single application (fmt=url-unquote[-plus]) inverts url_quote(_plus) for every text
+    for s2 in ['1+1=2', 'C++ and C', 'a b+c', '+', ' ', '%', '%2B', 'a%20b', '100%+', 'ü+ö', 'x=1&y=2+3', '++', '+ +'] + \
+            [''.join(r.choice('+ %ab2B&=é') for _ in range(r.randint(1, 8))) for _ in range(200 if tier == 'quick' else 4000)]:
+        for fq, fu, fmtname in ((urllib.parse.quote, urllib.parse.unquote, 'url-unquote'),
+                                (urllib.parse.quote_plus, urllib.parse.unquote_plus, 'url-unquote-plus')):
+            quoted = fq(s2)
+            out = render_simple('<dtml-var x fmt=%s>' % fmtname, x=quoted)
+            res.evaluations += 1
+            res.nt(('unquote-once', fmtname, s2))
+            if out != ('out', s2):
+                fail({'src': '<dtml-var x fmt=%s>' % fmtname, 'x': quoted}, '%s of %r gave %r, expected %r' % (fmtname, quoted, out, s2))
     # floats and bytes (outside the Lean model: oracle only)
     for val, src, exp in ((3.14159, '<dtml-var x fmt="%.2f">', '3.14'), (1234567.5, '<dtml-var x fmt=comma-numeric>', '1,234,567.5'),
                           (2.5, '<dtml-var x fmt=dollars-and-cents>', '$2.50'), (b'abc', '<dtml-var x upper>', 'ABC'),
